@@ -32,8 +32,12 @@ Fixpoint sort_by_time (l : list rec) : list rec :=
 
 Inductive merge_status := RewindLocal (events : list rec) | PushRemote (events : list rec).
 
+(* local.retain(|r| !remote_commits.contains(r.commit())) *)
+Definition not_in_remote (remote : list rec) (local : list rec) : list rec :=
+  filter (fun r => negb (mem_commit (er_commit r) remote)) local.
+
 Definition merge_patches (local remote : list rec) : merge_status :=
   if commits_subset local remote then RewindLocal remote
-  else PushRemote (sort_by_time (local ++ remote)).
+  else PushRemote (sort_by_time (not_in_remote remote local ++ remote)).
 End MergePatches.
 Arguments RewindLocal {hash dat}. Arguments PushRemote {hash dat}.
